@@ -48,6 +48,21 @@ PREFS["9"] = """ (A) TWO COOPERATING SITES: two small edits in different functio
      history; for the properties about threads / the server also a particular interleaving.
 """
 
+PREFS["10"] = """ (A) behaviour that differs only in a particular BUILD or ENVIRONMENT, everything else unchanged: a release build versus a debug build
+     (`cfg!(debug_assertions)`, a `debug_assert!` that guards a fast path, wrapping versus checked arithmetic, an `unsafe` / FFI
+     shortcut whose effect depends on optimisation), another thread than the one that built the evaluator (thread-local state), a
+     process that has been running for a while (a counter that wraps, a cache or pool that fills up, an id that is reused), the
+     process environment (TZ, locale, current directory) - demonstrate it with the build / history / environment it needs;
+ (B) TWO COOPERATING SITES IN DIFFERENT FILES: a helper whose contract is changed slightly (what it returns for an edge input, whether
+     it normalises, whether it trims, which of two equal items it keeps) + a caller in another file that relied on the old contract.
+     Each edit must be correct and harmless when read on its own; only together they break the property;
+ (C) a change in how a DEPENDENCY is used (regex builder options and flags, chrono / chrono-tz API choice, roxmltree options and text
+     handling, actix-web extractor / payload configuration, serde attributes on the DTOs) that is invisible for everyday inputs;
+ (D) ORDER and STABILITY: a result that depends on the iteration order of a map or set, on sort stability, on which of two equal
+     elements is kept by a dedup, on the order in which two independent checks are made when both fail;
+ (E) an interaction of THREE ordinary features that must meet (e.g. a named parameter + a multi-word name + a null value).
+"""
+
 BRIEF = """# Brief: one realistic, hard-to-notice change that breaks a stated property
 
 You are helping to test a verification tool by mutation: I need ONE realistic change to the Rust repository checked out in
